@@ -53,6 +53,8 @@ def site_stmt(site, a):
         "loop-nested": ".loop %s { .loop %s { } }" % (a, a),
         "import-super": '.import super as zx from "zinc.asm"\nnop', "import-as-super": '.import * as super from "zinc.asm"\nnop',
         "import-super-path": '.import zfoo as super.zq from "zinc.asm"\nnop',
+        "import-into-itself": '.import zfoo, zfoo as zfoo.zy from "zinc.asm"\nnop',
+        "macro-fanout": ".macro zf2() {\nzf2()\nzf2()\n}\nzf2()", "macro-fanout-mutual": ".macro zfa() {\nzfb()\nzfb()\n}\n.macro zfb() {\nzfa()\nzfa()\n}\nzfa()",
         "nested-defined": ".if " + "defined(" * 3000 + "zz" + ")" * 3000 + " { nop }",
         "macro-blocks-3": ".macro zm3() { {{{ zm3() }}} }\nzm3()", "macro-blocks-95": ".macro zm95() { " + "{" * 95 + " zm95() " + "}" * 95 + " }\nzm95()",
         "macro-ifs-40": ".macro zmi() { " + ".if 1 {" * 40 + " zmi() " + "}" * 40 + " }\nzmi()",
